@@ -364,4 +364,97 @@ example : (purge (generate s0 noFaults (some (some 1)) .vm).1 noFaults ⟨0, 0, 
 example : (purge (generate s0 noFaults (some (some 1)) (.rel .auth)).1 ⟨false, true, false, false, false⟩ ⟨0, 0, some 1⟩).2
     = .error .keyStorage := by rfl
 
+
+/-! ## generate, then purge: a round trip -/
+
+/-- **a fault-free `generate_method` followed by a fault-free `purge_method` of the generated method is the identity** on the
+document, the key store and the key-id store (only the key counter has moved), whenever the fragment was free: no method
+and no relationship entry carried that id, and no key id was recorded for that digest -/
+theorem generate_then_purge (s : St) (fr : Nat) (hw : WF s)
+    (hins : insertRefused s.doc ⟨⟨s.doc.id, 0, some fr⟩, 1000 + (s.next + 1)⟩ .vm = false)
+    (hvm : ∀ m ∈ allMethods s.doc, m.id ≠ ⟨s.doc.id, 0, some fr⟩)
+    (hrel : ∀ r, ∀ e ∈ s.doc.getRel r, e.id ≠ ⟨s.doc.id, 0, some fr⟩)
+    (hkid : lookupKid s.kids (some fr, 1000 + (s.next + 1)) = none) :
+    (generate s noFaults (some (some fr)) .vm).2 = .ok fr ∧
+    purge (generate s noFaults (some (some fr)) .vm).1 noFaults ⟨s.doc.id, 0, some fr⟩ =
+      ({ s with next := s.next + 1 }, .ok ()) := by
+  have hfresh : s.next + 1 ∉ s.keys := fun h => by have := hw.fresh _ h; omega
+  have hvm' : ∀ m ∈ s.doc.vm, m.id ≠ ⟨s.doc.id, 0, some fr⟩ :=
+    fun m hm => hvm m (by unfold allMethods; exact List.mem_append_left _ hm)
+  -- the document after the insertion
+  have hcont : OSet.contains Method.id s.doc.vm (⟨s.doc.id, 0, some fr⟩ : Id) = false := by
+    rw [contains_false_iff]
+    intro hmem
+    obtain ⟨m, hm, e⟩ := List.mem_map.1 hmem
+    exact hvm' m hm e
+  have hdoc : insertMethod s.doc ⟨⟨s.doc.id, 0, some fr⟩, 1000 + (s.next + 1)⟩ .vm =
+      ({ s.doc with vm := s.doc.vm ++ [⟨⟨s.doc.id, 0, some fr⟩, 1000 + (s.next + 1)⟩] }, .ok) := by
+    unfold insertMethod insertMethodG
+    unfold insertRefused at hins
+    simp only [hins, Bool.false_eq_true, ↓reduceIte, OSet.append, hcont]
+  -- the generated state
+  have hgen : generate s noFaults (some (some fr)) .vm =
+      ({ s with doc := { s.doc with vm := s.doc.vm ++ [⟨⟨s.doc.id, 0, some fr⟩, 1000 + (s.next + 1)⟩] },
+                keys := s.keys ++ [s.next + 1], next := s.next + 1,
+                kids := s.kids ++ [((some fr, 1000 + (s.next + 1)), s.next + 1)] }, .ok fr) := by
+    unfold generate
+    simp only [noFaults, Bool.false_eq_true, ↓reduceIte, Option.getD_some, hdoc, Res.isErr, insertKid, Bool.false_or, hkid,
+      Option.isSome_none]
+  refine ⟨by rw [hgen], ?_⟩
+  rw [hgen]
+  -- purge finds the method, its digest and its key id
+  have hfind : (allMethods { s.doc with vm := s.doc.vm ++ [⟨⟨s.doc.id, 0, some fr⟩, 1000 + (s.next + 1)⟩] }).find?
+      (fun m => decide (m.id = ⟨s.doc.id, 0, some fr⟩)) = some ⟨⟨s.doc.id, 0, some fr⟩, 1000 + (s.next + 1)⟩ := by
+    unfold allMethods
+    simp only [List.append_assoc, List.find?_append]
+    have : s.doc.vm.find? (fun m => decide (m.id = (⟨s.doc.id, 0, some fr⟩ : Id))) = none := by
+      rw [List.find?_eq_none]; intro x hx; simpa using hvm' x hx
+    rw [this]; simp
+  have hrm : removeMethod { s.doc with vm := s.doc.vm ++ [⟨⟨s.doc.id, 0, some fr⟩, 1000 + (s.next + 1)⟩] } ⟨s.doc.id, 0, some fr⟩ =
+      (s.doc, .removedMethod (some (⟨⟨s.doc.id, 0, some fr⟩, 1000 + (s.next + 1)⟩, Scope.vm))) := by
+    unfold removeMethod
+    have hr := removeRels_absent ⟨s.doc.id, 0, some fr⟩ (relList Gen.C04.removeOrder)
+      { s.doc with vm := s.doc.vm ++ [⟨⟨s.doc.id, 0, some fr⟩, 1000 + (s.next + 1)⟩] }
+      (by intro r e he; exact hrel r e (by cases r <;> exact he))
+    simp only [hr]
+    have hl := remove_last Method.id s.doc.vm ⟨⟨s.doc.id, 0, some fr⟩, 1000 + (s.next + 1)⟩ hvm'
+    simp only [hl, Option.map_some]
+  unfold purge
+  simp only [Gen.C09.purgeLooksUpFirst, ↓reduceIte, hfind, digestOf, getKid, noFaults, Bool.false_eq_true,
+    lookup_append, hkid, Option.or]
+  have h1000 : ¬ (1000 + (s.next + 1) = 0) := by omega
+  simp only [h1000, ↓reduceIte]
+  unfold purgeStores deleteKey deleteKid
+  simp only [Bool.false_or, lookup_append, hkid, hrm]
+  have hk1 : (s.keys ++ [s.next + 1]).contains (s.next + 1) = true := by simp
+  have hkf := filter_append_fresh s.keys (s.next + 1) hfresh
+  have hlk : lookupKid [((some fr, 1000 + (s.next + 1)), s.next + 1)] (some fr, 1000 + (s.next + 1)) = some (s.next + 1) := by
+    simp [lookupKid]
+  have hkids : (s.kids ++ [((some fr, 1000 + (s.next + 1)), s.next + 1)]).filter (fun e => !(e.1 == ((some fr, 1000 + (s.next + 1)) : Digest))) = s.kids := by
+    rw [List.filter_append]
+    have : s.kids.filter (fun e => !(e.1 == ((some fr, 1000 + (s.next + 1)) : Digest))) = s.kids := by
+      apply List.filter_eq_self.2
+      intro a ha
+      unfold lookupKid at hkid
+      have hn : s.kids.find? (fun e => e.1 == ((some fr, 1000 + (s.next + 1)) : Digest)) = none := by
+        cases hf : s.kids.find? (fun e => e.1 == ((some fr, 1000 + (s.next + 1)) : Digest)) with
+        | none => rfl
+        | some x => rw [hf] at hkid; cases hkid
+      have := List.find?_eq_none.1 hn a ha
+      simpa using this
+    rw [this]; simp
+  simp only [hlk, Option.or, Option.isNone_some, hk1, Bool.not_true, Bool.false_eq_true, ↓reduceIte, hkf, hkids]
+
+
+-- the hypotheses of `generate_then_purge` are satisfiable (the empty start state, fragment 1)
+example : insertRefused s0.doc ⟨⟨s0.doc.id, 0, some 1⟩, 1000 + (s0.next + 1)⟩ .vm = false ∧
+    (∀ m ∈ allMethods s0.doc, m.id ≠ ⟨s0.doc.id, 0, some 1⟩) ∧
+    (∀ r, ∀ e ∈ s0.doc.getRel r, e.id ≠ ⟨s0.doc.id, 0, some 1⟩) ∧
+    lookupKid s0.kids (some 1, 1000 + (s0.next + 1)) = none := by
+  refine ⟨by decide, ?_, ?_, by decide⟩
+  · intro m hm
+    have : allMethods s0.doc = [] := by decide
+    rw [this] at hm; cases hm
+  · intro r e he; cases r <;> simp [s0, Doc.getRel] at he
+
 end IdModel.Props.C09
